@@ -820,6 +820,15 @@ def _extern_module(E, name):
         return aio.make_datetime_module(E)
     if name == 'itertools':
         def islice(it, *a):
+            from . import aio as _aio
+            if isinstance(it, _aio.QueueView):
+                ss = it.q.attrs['_sym']
+                it = SymSeq(ss['arr'], ss['h'], ss['t'], ss['name'])
+            if isinstance(it, SymSeq):
+                sl = slice(*a)
+                if sl.step not in (None, 1) or any(isinstance(x, int) and x < 0 for x in (sl.start, sl.stop)):
+                    raise Unsupported('itertools.islice over a symbolic sequence with a step / negative bound')
+                return it.slice(sl.start, sl.stop)
             xs = concrete_iter(E, it)
             if not all(isinstance(x, (int, type(None))) for x in a):
                 raise Unsupported('itertools.islice with symbolic bounds')
